@@ -49,6 +49,8 @@ class _Batch:
             fn(rep)
 
 
+_WF_CLAUSES = ("valid-distinct", "at-most-k", "weights")
+_TOPK_CLAUSES = ("valid-distinct", "k-lowest", "weights")
 _SHRUNK = {}  # un-shrunk fingerprint -> fingerprint of its minimised case
 
 
@@ -260,7 +262,14 @@ def run_greedy(task, opts, via_online=False):
     rec, agg, loss, RS, inner_agg, inner_loss = _make_env(task, preds, min(opts["k_init"], n))
     res.update(rec=rec, inner_agg=inner_agg, inner_loss=inner_loss)
     kw = {k: opts[k] for k in GREEDY_DEFAULTS}
-    sel = GreedySelector(loss, agg, random_state=RS(opts.get("seed", 0)), **kw)
+    sel = GreedySelector(loss, agg, random_state=RS(opts.get("seed", 0)), verbose=bool(opts.get("verbose")), **kw)
+    import contextlib
+    import io
+
+    out_ = io.StringIO()  # verbose=True prints a trace of the selection: captured, not compared
+    stack = contextlib.ExitStack()
+    stack.enter_context(contextlib.redirect_stdout(out_))
+    res["_stack"] = stack
     for h in task.get("history") or []:  # earlier select() calls on the same selector object
         hy, hp = build(h)
         rec.reset(hp, min(opts["k_init"], len(hp)))
@@ -503,59 +512,97 @@ _GATES = {}  # run key -> list of threading.Event (kept out of the predictor obj
 
 
 class _Member:
-    """a predictor that returns its own index once it is its turn to finish"""
+    """a predictor that returns a prediction identifying it (2 cells: i, i*i + 1/2) once it is its turn to
+    finish; `fail`: raise instead"""
 
-    def __init__(self, i, rank, key):
-        self.i, self.rank, self.key = i, rank, key
+    def __init__(self, i, rank, key, fail=False):
+        self.i, self.rank, self.key, self.fail = i, rank, key, fail
 
     def predict(self, X):
-        gates = _GATES[self.key]
-        gates[self.rank].wait(timeout=10)
-        time.sleep(0.003)
+        gates = _GATES.get(self.key)
+        if gates is not None:
+            gates[self.rank].wait(timeout=10)
+            time.sleep(0.003)
         try:
-            return np.full((1, 1), float(self.i))
+            if self.fail:
+                raise ValueError(f"member {self.i} cannot predict")
+            return np.array([[float(self.i), float(self.i * self.i) + 0.5]])
         finally:
-            if self.rank + 1 < len(gates):
+            if gates is not None and self.rank + 1 < len(gates):
                 gates[self.rank + 1].set()
 
+    def __repr__(self):
+        return f"_Member({self.i})"
 
-def run_predictor(finish_order, use_predict=False):
-    """members finish in `finish_order` (list of member indices) -> observed completion ids, returned order"""
+
+def _loader_class():
+    from deephyper.predictor import PredictorLoader
+
+    class _Loader(PredictorLoader):
+        """a PredictorLoader: the member is loaded inside the job"""
+
+        def __init__(self, member):
+            self.member, self.i = member, member.i
+
+        def load(self):
+            return self.member
+
+        def __repr__(self):
+            return f"_Loader({self.i})"
+
+    return _Loader
+
+
+def run_predictor(finish_order, mode="list", loader=False, fail=None, evaluator="scripted"):
+    """members finish in `finish_order` (list of member indices).
+    mode: "list" = predictions_from_predictors, "predict" = predict() (MeanAggregator, weights 1,2,4,…);
+    loader: members are PredictorLoaders; fail: index of a member whose predict raises;
+    evaluator: "scripted" (thread backend, one worker per member, event chain), None / "thread" / "serial" (the
+    constructor's other accepted forms; one worker, completion = submission order)"""
     from deephyper.ensemble import EnsemblePredictor
     from deephyper.ensemble.aggregator import MeanAggregator
     from deephyper.evaluator.callback import Callback
 
     n = len(finish_order)
-    gates = [threading.Event() for _ in range(n)]
-    gates[0].set()
-    key = f"run{len(_GATES)}"
-    _GATES[key] = gates
+    key = None
+    gates = []
+    if evaluator == "scripted":
+        gates = [threading.Event() for _ in range(n)]
+        gates[0].set()
+        key = f"run{len(_GATES)}"
+        _GATES[key] = gates
     rank = {m: r for r, m in enumerate(finish_order)}
-    members = [_Member(i, rank[i], key) for i in range(n)]
+    members = [_Member(i, rank[i], key, fail=(fail == i)) for i in range(n)]
+    if loader:
+        L = _loader_class()
+        members = [L(m) for m in members]
     seen = []
 
     class Spy(Callback):
         def on_done(self, job):
-            seen.append((str(job.id), int(np.asarray(job.output).reshape(-1)[0])))
+            seen.append((str(job.id), int(getattr(job.args["predictor"], "i"))))
 
     weights = [float(2 ** i) for i in range(n)]
-    ens = EnsemblePredictor(members, MeanAggregator(), weights=weights,
-                            evaluator={"method": "thread", "method_kwargs": {"num_workers": n, "callbacks": [Spy()]}})
-    X = np.zeros((1, 1))
+    res = {"seen": seen, "weights": weights}
     try:
-        if use_predict:
+        if evaluator == "scripted":
+            ev = {"method": "thread", "method_kwargs": {"num_workers": n, "callbacks": [Spy()]}}
+        else:
+            ev = evaluator
+        ens = EnsemblePredictor(members, MeanAggregator(), weights=weights, evaluator=ev)
+        X = np.zeros((1, 1))
+        if mode == "predict":
             out = ens.predict(X)
-            got = None
-            expected = sum(w * i for i, w in enumerate(weights)) / sum(weights)
-            return {"outcome": "ok", "seen": seen, "returned": got, "predict": float(np.asarray(out).reshape(-1)[0]),
-                    "expected": expected}
-        ys = ens.predictions_from_predictors(X, members)
-        return {"outcome": "ok", "seen": seen, "returned": [int(np.asarray(a).reshape(-1)[0]) for a in ys]}
+            res.update(outcome="ok", predict=[float(v) for v in np.asarray(out).reshape(-1)])
+        else:
+            ys = ens.predictions_from_predictors(X, members)
+            res.update(outcome="ok", returned=[int(np.asarray(a).reshape(-1)[0]) for a in ys])
     except Exception as e:  # noqa: BLE001
-        return {"outcome": "exc", "exc": f"{type(e).__name__}: {str(e)[:160]}", "seen": seen}
+        res.update(outcome="exc", exc=f"{type(e).__name__}: {str(e)[:200]}", exc_type=type(e).__name__)
     finally:
         for g in gates:
             g.set()
+    return res
 
 
 # --------------------------------------------------------------------------- run
@@ -595,20 +642,43 @@ def _greedy_case(ck, d, task, opts, label="greedy", res=None, verbose=False):
     fails = greedy_oracle(task, opts, res)
     if verbose:
         print("replay:", {"impl": {k: res.get(k) for k in ("outcome", "exc", "indices", "weights")}, "oracle": fails or "holds"})
-    for clause, detail in fails:
-        if clause == "inconclusive":
-            ck.count(f"{label}:inconclusive-long-early-stopping-run")
-            continue
+
+    def report(clause, detail):
         pre = _gfp(clause, task, opts, n, full=True)
         if pre in _SHRUNK:  # same class already minimised in this run: count the occurrence
             ck.fail(_SHRUNK[pre], f"GreedySelector: {clause} fails", case, detail)
-            continue
+            return
         t2, o2 = shrink_greedy(task, opts, clause)
         r2 = run_greedy(t2, o2)
         d2 = [x for c, x in greedy_oracle(t2, o2, r2) if c == clause]
         _SHRUNK[pre] = _gfp(clause, t2, o2, len(t2["preds"]), full=True)
         ck.fail(_SHRUNK[pre], f"GreedySelector: {clause} fails",
                 {"kind": "greedy", "task": t2, "opts": o2}, d2[0] if d2 else detail)
+
+    # well-formedness of the returned (indices, weights): decided by the verified checker `checkGreedyOut` run by the
+    # driver on the real output (C20_checker); the Python statement is the cross-check (disagreement = mismatch)
+    wf = [(c, dt) for c, dt in fails if c in _WF_CLAUSES]
+    sendable = res["outcome"] == "ok" and all(isinstance(i, (int, np.integer)) and i >= 0 for i in res["indices"]) and all(
+        isinstance(x, float) and np.isfinite(x) for x in res["weights"])
+    if sendable:
+        def on_check(rep, wf=wf):
+            ck.count(f"{label}:verified-checker:{'pass' if rep['spec'] else 'fail'}")
+            if bool(rep["spec"]) != (not wf):
+                ck.mismatch(case, f"verified checker checkGreedyOut = {rep['spec']} but the Python oracle says {wf or 'well-formed'} "
+                                  f"for {res['indices']} {res['weights']}")
+            if not rep["spec"]:
+                for clause, detail in (wf or [("well-formed", f"checkGreedyOut = false for {res['indices']} {res['weights']}")]):
+                    report(clause, detail)
+
+        d.ask({"op": "check_greedy", "tol": rat(1e-9), "n": n, "bound": max(opts["k"], min(opts["k_init"], n)),
+               "indices": [int(i) for i in res["indices"]], "weights": [rat(x) for x in res["weights"]]}, on_check)
+    for clause, detail in fails:
+        if clause == "inconclusive":
+            ck.count(f"{label}:inconclusive-long-early-stopping-run")
+            continue
+        if clause in _WF_CLAUSES and sendable:
+            continue
+        report(clause, detail)
 
 
 def _topk_case(ck, d, task, k, verbose=False):
@@ -637,7 +707,28 @@ def _topk_case(ck, d, task, k, verbose=False):
     fails = topk_oracle(res, k, task)
     if verbose:
         print("replay:", {"impl": {k_: res.get(k_) for k_ in ("outcome", "exc", "indices", "weights")}, "oracle": fails or "holds"})
+
+    def tfail(clause, detail):
+        ck.fail(f"C20|{clause}|TopKSelector.select|" + ("candidates=1" if n == 1 else "candidates<k" if n < k else "")
+                + (",reused-selector" if clause == "reuse-independent" else ""),
+                f"TopKSelector: {clause} fails", case, detail)
+
+    spec = [(c, dt) for c, dt in fails if c in _TOPK_CLAUSES]
+    sendable = res["outcome"] == "ok" and all(isinstance(i, (int, np.integer)) and i >= 0 for i in res["indices"])
+    if sendable:
+        def on_check(rep, spec=spec):
+            ck.count(f"topk:verified-checker:{'pass' if rep['spec'] else 'fail'}")
+            if bool(rep["spec"]) != (not spec):
+                ck.mismatch(case, f"verified checker checkTopK = {rep['spec']} but the Python oracle says {spec or 'k lowest'}")
+            if not rep["spec"]:
+                for clause, detail in (spec or [("k-lowest", f"checkTopK = false for {res['indices']}")]):
+                    tfail(clause, detail)
+
+        d.ask({"op": "check_topk", "losses": [rat(res["rec"].member_loss[i]) for i in range(n)], "k": k,
+               "indices": [int(i) for i in res["indices"]], "weights": [rat(float(x)) for x in res["weights"]]}, on_check)
     for clause, detail in fails:
+        if clause in _TOPK_CLAUSES and sendable:
+            continue
         ck.fail(f"C20|{clause}|TopKSelector.select|" + ("candidates=1" if n == 1 else "candidates<k" if n < k else "")
                 + (",reused-selector" if clause == "reuse-independent" else ""),
                 f"TopKSelector: {clause} fails", case, detail)
@@ -694,40 +785,73 @@ def _online_case(ck, d, task, opts, fail_at, verbose=False):
             ck.fail("C20|online-job-ids|OnlineSelector.selected_predictors_job_ids|", "job ids do not match the selected indexes", case)
 
 
-def _predictor_case(ck, d, order, use_predict=False, verbose=False):
-    res = run_predictor(order, use_predict)
-    case = {"kind": "predictor", "finish_order": list(order), "use_predict": use_predict}
+def _predictor_case(ck, d, order, use_predict=False, loader=False, fail=None, evaluator="scripted", verbose=False):
+    mode = "predict" if use_predict else "list"
+    res = run_predictor(order, mode, loader=loader, fail=fail, evaluator=evaluator)
+    case = {"kind": "predictor", "finish_order": list(order), "use_predict": use_predict, "loader": loader, "fail": fail,
+            "evaluator": evaluator}
     n = len(order)
+    site = "EnsemblePredictor." + ("predict" if use_predict else "predictions_from_predictors")
+    cls_ = ",".join(x for x in ("evaluator=thread" if evaluator == "scripted" else f"evaluator={evaluator}",
+                               "loader" if loader else "", "member-raises" if fail is not None else "") if x)
     seen_members = [m for _, m in res["seen"]]
     ck.case(case, nontrivial=n >= 2 and seen_members != sorted(seen_members))
-    ck.count(f"predictor:members={n}")
-    ck.count("predictor:completion-order-" + ("as-scripted" if seen_members == list(order) else "other"))
-    ck.count("predictor:completion-" + ("in-submission-order" if seen_members == sorted(seen_members) else "out-of-order"))
-    dis = None
+    ck.count(f"predictor:{mode}:members={n}")
+    ck.count(f"predictor:evaluator={evaluator}{':loader' if loader else ''}{':member-raises' if fail is not None else ''}")
+    if evaluator == "scripted":
+        ck.count("predictor:completion-order-" + ("as-scripted" if seen_members == list(order) else "other"))
+        ck.count("predictor:completion-" + ("in-submission-order" if seen_members == sorted(seen_members) else "out-of-order"))
     fails = []
-    if res["outcome"] == "exc":
+    if evaluator not in ("scripted", None, "thread") and not isinstance(evaluator, dict):
+        # not an accepted form: the constructor must refuse it
+        if res["outcome"] != "exc" or res.get("exc_type") != "ValueError":
+            fails.append(("constructor-rejects", f"evaluator={evaluator!r} accepted: {res.get('exc')}"))
+    elif fail is not None:
+        # the error must name the failing member by its position in the predictors list, whatever finished first
+        if res["outcome"] != "exc" or res.get("exc_type") != "RuntimeError":
+            fails.append(("member-error-reported", f"member {fail} raises in predict, outcome {res['outcome']} {res.get('exc')}"))
+        elif f"predictors[{fail}]" not in res["exc"] or f"({fail})" not in res["exc"]:
+            fails.append(("member-order", f"member {fail} failed but the error names another one: {res['exc']}"))
+    elif res["outcome"] == "exc":
         fails.append(("never-fails", res["exc"]))
     elif use_predict:
-        if abs(res["predict"] - res["expected"]) > 1e-12:
-            fails.append(("member-order", f"predict() = {res['predict']!r}, weighted mean in member order = {res['expected']!r}"))
-    else:
-        def on_reply(rep, case=case, res=res, seen_members=seen_members):
-            model = [seen_members[p] for p in rep["perm"]]
-            if rep["bad_id"] or model != res["returned"]:
-                ck.mismatch(case, f"impl returned members {res['returned']}, model (sortById of completion order "
-                                  f"{res['seen']}) {model}")
-            elif verbose:
-                print("replay:", {"model": model, "model_vs_impl": "agree"})
+        w = res["weights"]
+        exp = [sum(w[i] * v for i, v in enumerate(col)) / sum(w)
+               for col in ([float(i) for i in range(n)], [float(i * i) + 0.5 for i in range(n)])]
+        if any(abs(a - b) > 1e-12 * (1 + abs(b)) for a, b in zip(res["predict"], exp)) or len(res["predict"]) != 2:
+            fails.append(("member-order", f"predict() = {res['predict']!r}, weighted mean in member order = {exp!r}; "
+                                          f"completion order {seen_members}"))
+        if seen_members:
+            def on_reply(rep, case=case, res=res):
+                model = [None if v is None else float(unrat(v)) for v in rep["loc"]]
+                if rep["bad_id"] or len(model) != len(res["predict"]) or any(
+                        m is None or abs(m - a) > 1e-12 * (1 + abs(m)) for m, a in zip(model, res["predict"])):
+                    ck.mismatch(case, f"predict(): impl {res['predict']}, model (sortById of completion order {res['seen']}, "
+                                      f"then weighted mean) {model}")
+                elif verbose:
+                    print("replay:", {"model": model, "model_vs_impl": "agree"})
 
-        d.ask({"op": "sort", "ids": [i for i, _ in res["seen"]]}, on_reply)
+            d.ask({"op": "predict", "ids": [i for i, _ in res["seen"]],
+                   "vals": [[rat(float(m)), rat(float(m * m) + 0.5)] for m in seen_members],
+                   "ws": [rat(x) for x in res["weights"]]}, on_reply)
+    else:
+        if seen_members:
+            def on_reply(rep, case=case, res=res, seen_members=seen_members):
+                model = [seen_members[p] for p in rep["perm"]]
+                if rep["bad_id"] or model != res["returned"]:
+                    ck.mismatch(case, f"impl returned members {res['returned']}, model (sortById of completion order "
+                                      f"{res['seen']}) {model}")
+                elif verbose:
+                    print("replay:", {"model": model, "model_vs_impl": "agree"})
+
+            d.ask({"op": "sort", "ids": [i for i, _ in res["seen"]]}, on_reply)
         if res["returned"] != list(range(n)):
             fails.append(("member-order", f"predictions of members {res['returned']} returned for predictors 0..{n - 1}; "
                                           f"completion order {seen_members}"))
     if verbose:
-        print("replay:", {"impl": res, "model_vs_impl": dis or "agree", "oracle": fails or "holds"})
+        print("replay:", {"impl": res, "oracle": fails or "holds"})
     for clause, detail in fails:
-        ck.fail(f"C20|{clause}|EnsemblePredictor.predictions_from_predictors|evaluator=thread", f"EnsemblePredictor: {clause} fails",
-                case, detail)
+        ck.fail(f"C20|{clause}|{site}|{cls_}", f"EnsemblePredictor: {clause} fails", case, detail)
 
 
 def _corpus():
@@ -749,7 +873,8 @@ def _dispatch(ck, d, case, verbose=False):
     elif case["kind"] == "online":
         _online_case(ck, d, case["task"], case["opts"], set(case.get("fail_at", [])), verbose=verbose)
     else:
-        _predictor_case(ck, d, case["finish_order"], case.get("use_predict", False), verbose=verbose)
+        _predictor_case(ck, d, case["finish_order"], case.get("use_predict", False), loader=case.get("loader", False),
+                        fail=case.get("fail"), evaluator=case.get("evaluator", "scripted"), verbose=verbose)
 
 
 def run(ck):
@@ -804,16 +929,27 @@ def run(ck):
                 task["agg"], task["loss"] = "mean", rng.choice(["se", "ae"])
             fail_at = {i for i in range(n) if rng.random() < 0.15}
             _online_case(ck, d, task, gen_opts(rng, n), fail_at)
-        # EnsemblePredictor: every finish order
+        # EnsemblePredictor: every finish order, for predictions_from_predictors AND for predict() end to end
         nmax = ck.pick(4, 5)
         for n in range(1, nmax + 1):
             for order in itertools.permutations(range(n)):
                 _predictor_case(ck, d, list(order))
-        for _ in range(ck.pick(6, 30)):
+                if n <= ck.pick(3, 5) or rng.random() < 0.4:
+                    _predictor_case(ck, d, list(order), use_predict=True, loader=rng.random() < 0.3)
+        for _ in range(ck.pick(6, 40)):  # members given as PredictorLoaders
             n = rng.randint(2, 5)
             order = list(range(n))
             rng.shuffle(order)
-            _predictor_case(ck, d, order, use_predict=True)
+            _predictor_case(ck, d, order, use_predict=rng.random() < 0.5, loader=True)
+        for _ in range(ck.pick(8, 60)):  # a member raises: the error must name that member, whatever finished first
+            n = rng.randint(1, 4)
+            order = list(range(n))
+            rng.shuffle(order)
+            _predictor_case(ck, d, order, use_predict=rng.random() < 0.5, fail=rng.randrange(n), loader=rng.random() < 0.3)
+        # the other forms of the `evaluator` argument ("serial" is not one the predictor can run with: SerialEvaluator
+        # refuses the non-coroutine wrapper at construction; the property quantifies over the thread backend)
+        for ev in (None, "thread", {"method": "thread"}, 5, ["thread"]):
+            _predictor_case(ck, d, [0, 1, 2], use_predict=ev is None, evaluator=ev)
         d.flush()
 
 
